@@ -735,7 +735,7 @@ def run(ctx):
     install_monitors(rec, am)
 
     try:
-        n_single = ctx.pick(1008, 15120)
+        n_single = ctx.pick(1008, 10080)
         for i in ctx.cases('single', n_single):
             rng = ctx.rng
             ptype = PTYPES[i % 4]
@@ -775,7 +775,7 @@ def run(ctx):
                                 pbc=pbc, props=list(R.before.props), atol=spec['atol_arg'], site=op.get('site'),
                                 kw=sorted((op.get('kw') or {}).keys()), vects=R.before.vects))
 
-        n_hist = ctx.pick(192, 2880)
+        n_hist = ctx.pick(192, 1920)
         for i in ctx.cases('history', n_hist):
             run_history(ctx, am, i)
     finally:
